@@ -8,7 +8,7 @@ PROP = {
             "every integer width) and a template of independent statements from a restricted grammar whose uses of every variable "
             "are known (print, string filters as receiver and argument, == != < > <= >=, contains, case/when, conditions, "
             "arithmetic filters as receiver and argument, loops with modifiers, tablerow, array filters join/first/last/reverse/"
-            "sort/sort_natural/uniq/compact/concat/map/size, index and property lookup, map lookup/size/iteration; since fixes/nested-drops-resolved "
+            "sort/sort_natural/uniq/compact/concat/map/size, index and property lookup, map lookup/size/iteration; since fixes/nested-drops-resolved.patch "
             "also every place that prints a container in Go syntax: {{ m }} of a map, an array or map converted to a string parameter, "
             "join and sort_natural of nested arrays, an array or map as the needle of a string `contains`, uniq and == on nested arrays). "
             "Five further environments "
@@ -42,20 +42,22 @@ TEXT = {
               'every depth; with d = true a drop inside a container is the value it yields); bindings and expression results are '
               'compared through unwrap (at the top of the value only: drops of every depth resolved, a pointer followed unless it '
               'points to a struct, range or time, nil pointer = nil; a pointer INSIDE a container is kept by norm and is not its '
-              'pointee). '
+              'pointee; a binding of the shape of the renderer\'s own forloop record - which no caller can build - is related to itself only: ERel). '
               'run_rep_independent: for EVERY comparison/filter layer and output layer that respect the equivalence '
               '(PrimsRespect, OutRespect), every configuration, file system, include depth and template source, rendering against '
               'two environments with pointwise equivalent bindings gives the same RunResult (mutual induction over the compiled '
               'tree on the two runs in lock step: rel_renderNode; eval_rel for expressions; assign/capture/loop/forloop/cycle/'
               'include state threading); run_rep_independent_upto_unmodelled is the same up to the boundary of the model. '
               'Standard configuration (d = false): stdOut_respects (printing; proved for d = true as well, see below), opEq/opLt/opContains_prep_vrel and '
-              'equal_prep_repEq (comparisons), filterRespects_std / filterRespects_std_upto (every standard filter except those that '
-              'observe the Go representation - the value/debugging filters json, inspect, type; uniq respects the equivalence since '
-              'fixes/nested-drops-resolved: uniq_respects, uniqKey_repEq for every d; '
+              'equal_prep_repEq (comparisons), filterRespects_std (exactly: every filter name except sort, sort_natural and those that '
+              'observe the Go representation - the value/debugging filters json, inspect, type) / filterRespects_std_upto (up to '
+              'unmodelled results: every name except json, inspect, type; uniq respects the equivalence since '
+              'fixes/nested-drops-resolved.patch: uniq_respects for the relation d = false, and answering unmodelled on both sides when an element '
+              'holds a pointer; its element key and loop uniqKey_repEq, uniqOn_rel for every d; '
               'filterRespects_of_scalar: any filter whose parameters are all bool/int/float64/string/time, whatever its body; sort '
               'and sort_natural exactly on at most 12 elements (congruence of the insertion-sort model insertionSortM: '
-              'sortWith_rel_short, sortNaturalWith_rel_short) and through List.map_mergeSort up to their unmodelled tie order '
-              'beyond) give '
+              'sortWith_rel_short, sortNaturalWith_rel_short) and through mergeSort_rel (Proofs.RepEqSort; by the Lean core lemma '
+              'List.map_mergeSort) up to their unmodelled tie order beyond: sortWith_rel, sortNaturalWith_rel) give '
               'run_std_rep_independent_partial / run_std_rep_independent_without_repr_filters: on the standard engine with any set of '
               'registered filters that excludes json, inspect and type every template renders to agreeing results (equal, or one run is outside the '
               'model) for environments that differ in typed vs generic slices, fixed arrays, typed maps at any depth and in '
@@ -63,8 +65,9 @@ TEXT = {
               'every comparison/filter layer that respects the equivalence with nested drops, the STANDARD output layer (stdOut_respects t true: '
               'writeObject writes arrays element by element and maps through fmt.Sprint(values.ResolveDrops(.)); sprintR_norm, writeChunksL_norm '
               'for every d) and every template render two such environments to the same result; sprintR_repEq (every place that prints in Go '
-              'syntax: Convert to string, join, sort_natural) and uniqKey_repEq hold for d = true; the congruence of values.Equal / Less / contains '
-              'and of the other filter bodies is proved for d = false only. The four former deviations are theorems of the opposite statement, '
+              'syntax: Convert to string, join, sort_natural) and uniqKey_repEq / uniqOn_rel (the element key and the loop of uniq) hold for every d, d = true '
+              'included; the congruence of values.Equal / Less / contains and of the filter bodies as filters (uniq_respects too) is proved for the '
+              'relation d = false only. The four former deviations are theorems of the opposite statement, '
               'evaluated on the same templates and bindings (uniq_typed_nested_slice_repaired, drop_in_printed_map_repaired, '
               'drop_in_array_to_string_repaired, drop_of_drop_in_array_equal_repaired). Forced restrictions are recorded as evaluated counterexamples in '
               'Proofs/C18.lean (type prints the Go type; json/inspect marshal the Go value: '
@@ -74,9 +77,9 @@ TEXT = {
               'use, printing, also as an array element), ptr_unwrap_* / ptr_propertyValue_slice / ptr_indexValue_map (a pointer to '
               'an int, string, slice or map, and lookup through a pointer to the container itself), '
               'typed_*/array_* (index, property, loop, printing), mapslice_lookup_found/skip for string keys and mapslice_size '
-              '(under the hypothesis that the ordered map has no key "size"), bytes_print (printing by {{ x }} only), '
-              'int_width_prints and int_width_truthy (printing and truthiness only; comparison across widths is C09\'s '
-              'equal_num/less_num, not audited here; no theorem on arithmetic by width nor on float32). Tie: the `reps` stream '
+              '(under the hypothesis that looking up the key "size" in the ordered map yields nil: no such key, or one whose value is nil), bytes_print (printing by {{ x }} only), '
+              'int_width_prints and int_width_truthy (printing and truthiness only; comparison across widths is '
+              'equal_num/less_num of Proofs.C09, audited under C09 and not here; no theorem on arithmetic by width nor on float32). Tie: the `reps` stream '
               'renders every generated template with the generic and five derived Go representations of one logical environment '
               'on the model and on the real engine and requires all of them to render identically on the real engine; in addition '
               'a fixed family of 1070 (variant, generic twin) rows with drops and typed containers nested at depth 1-3 under every printing, '
@@ -84,7 +87,7 @@ TEXT = {
     "design_ref": 'DESIGN.md 6 C18',
     "note": NOTE + ('The property as stated was FALSE on the real engine in four recorded places (a drop inside a map that is printed '
               'whole, a drop inside an array converted to a string parameter, a drop that yields a drop inside an array under '
-              'case/when, uniq on nested typed slices); they are repaired by fixes/nested-drops-resolved (known_findings.json K-C18-*, '
+              'case/when, uniq on nested typed slices); they are repaired by fixes/nested-drops-resolved.patch (known_findings.json K-C18-*, '
               'status fixed; DESIGN 7.1b), the former counterexamples of Proofs/C18.lean are theorems of the opposite statement, and the '
               'fixed family of the reps stream requires all of them (and 1066 further rows) to agree; no pair is whitelisted any more. '
               'values.ToLiquid stops after 64 drops in a row and values.ResolveDrops after 64 levels of containers (guards against a drop that '
@@ -97,13 +100,14 @@ TEXT = {
               'relation without drops nested in containers (d = false), up to unmodelled results (agreement is vacuous when either '
               'run is outside the model), and without the filters json, '
               'inspect, type (which observe the Go representation and do not respect the equivalence: counterexamples in Proofs/C18.lean); '
-              'for the relation WITH drops nested in containers (d = true) the output layer and uniq are proved, the standard comparisons and '
-              'the other filter bodies are covered by the reps stream and its fixed family only. '
+              'for the relation WITH drops nested in containers (d = true) the output layer (stdOut_respects, run_stdOut_rep_independent_nested_drops), '
+              'printing in Go syntax (sprintR_repEq) and the element key and loop of uniq (uniqKey_repEq, uniqOn_rel) are proved; the standard comparisons '
+              'and the filters as a layer (PrimsRespect t true stdPrims) are not: they are covered by the reps stream and its fixed family only. '
               'Pointers are followed at the top of a binding or expression result only: pointers stored inside maps or arrays '
               '(reached by lookup) and pointers to a struct, range or time are outside the equivalence and covered by the reps '
               'stream only. Numeric width: theorems for printing and truthiness of integers only; comparison by C09 (not audited '
               'here); arithmetic by width and float32 by the reps stream only. []byte: theorem for printing only, under string '
-              'filters by the reps stream only. MapSlice-as-map: lookup of string keys and size (no key "size") by theorem, the '
+              'filters by the reps stream only. MapSlice-as-map: lookup of string keys and size (when the lookup of "size" yields nil) by theorem, the '
               'rest by the reps stream.'),
     "technique": ('Lean 4 proof (normal form of representations, two-run logical relation over the interaction trees, mutual '
               'induction over the compiled template; case analysis on the value representation) + model/implementation correspondence + metamorphic '
